@@ -287,6 +287,20 @@ def run(ctx):
                 ok = want is not None and got == want and t.final == N.mk_add(P0(STREAM), d[0])
             detail = "returns %s" % N.show(got)
     ctx.ob("C16.R6", cls_[0] if cls_ else mf, ok, "PrefixedArray._actualsize returns the bytes the count field took plus count * sizeof(element) -- independent of where the array starts (%s)" % detail, key="PrefixedArray probe amount")
+    # who defines a size probe: Construct (the default: _sizeof) and Prefixed (reference above).  A forwarding probe (`return self.subcon._actualsize(
+    # stream, context, path)` and nothing else touching the stream) is the inner construct's probe; any other new class-level probe has no reference
+    # here -- where each element's probe starts is exactly what the position algebra cannot assume -- and is reported as undecided, not passed over
+    for ci in M.construct_classes():
+        if "_actualsize" not in ci.methods or ci.name in ("Construct", "Prefixed") or ci.relpath.endswith("debug.py"):
+            continue
+        fq = M.method(ci.name, "_actualsize")
+        pq = [p for p in paths_of(ctx, fq, ci.name) if p.returns]
+        fwd = bool(pq) and all(len([e for e in p.events if e.kind in ("SUB", "READ", "READALL", "SEEK", "TELL", "WRITE", "RAWIO")]) == 1 and
+                               any(e.kind == "SUB" and e["m"] == "_actualsize" and e["stream"] == STREAM and e["res"] == p.retval for e in p.events) for p in pq)
+        if fwd:
+            ctx.ob("C16.R6", fq, True, "%s._actualsize forwards to the inner construct's probe on the same stream" % ci.name, key="%s probe forwards" % ci.name)
+        else:
+            ctx.error("C16.R6 undecided: %s defines a size probe (_actualsize) the rule has no reference for" % ci.name)
     # any other macro that patches a size probe onto its result: the probe must be what the construct the macro returns consumes.  Decided for a
     # byte-length prefix (the returned term contains Prefixed(lengthfield, ...)): bytes of the length field + the parsed length, no scaling
     for mname, mf2 in sorted(M.macros().items()):
